@@ -228,6 +228,8 @@ func (w *world) doStep(op string, p *profile) {
 		w.advance(rapid.SampledFrom([]time.Duration{time.Nanosecond, time.Millisecond, time.Second, 2 * time.Second}).Draw(w.rt, "advance"))
 	case "tick":
 		w.stepTick()
+	case "syncDuplicate":
+		w.stepSyncDuplicate()
 	case "raceTimer":
 		w.stepExecuteRacingTimer(p.instances)
 	case "raceCancel":
